@@ -24,6 +24,7 @@ A unit template (units/<id>/unit.c.in) is ordinary C with directives:
   <payload lines: C statements put at the very start of the body>
   //@@ end
   //@@ region file=<rel> cname=<c> begin=<regex> [occurrence=N] sig=<C signature>
+  //@@ typedef file=<rel> name=<n>      ('typedef union|struct {...} n;' copied verbatim)
   ... (same sub-directives) -- extracts the brace block that starts at the
       first '{' after the match of begin (or the statement for loops)
   //@@ job ... (parsed by the runner, ignored here)
@@ -735,6 +736,8 @@ def parse_template(text):
                 items.append(('define', parse_attrs(rest)))
             elif word == 'enumval':
                 items.append(('enumval', parse_attrs(rest)))
+            elif word == 'typedef':
+                items.append(('typedef', parse_attrs(rest)))
             elif word == 'expect':
                 items.append(('expect', parse_attrs(rest)))
             elif word == 'restartorder':
@@ -1148,6 +1151,24 @@ class Extractor:
         self.report.setdefault('defines', []).append(dict(name=a['name'], file=a['file'], line=line_of(src.text, ms[0].start()), text=body.strip()))
         return '#define %s%s' % (a.get('as', a['name']), body)
 
+    def typedef(self, a):
+        """//@@ typedef file= name= : 'typedef union|struct { ... } name;' copied verbatim (comments stripped)"""
+        src = self.src(a['file'])
+        ms = []
+        for m in re.finditer(r'\btypedef\s+(?:union|struct)\s*\{', src.text):
+            lb = src.text.index('{', m.start())
+            rb = match_bracket(src.text, lb)
+            m2 = re.compile(r'\s*' + re.escape(a['name']) + r'\s*;').match(src.text, rb + 1)
+            if m2:
+                ms.append((m.start(), m2.end()))
+        if len(ms) != 1:
+            raise ExtractionError('typedef %s found %d times in %s' % (a['name'], len(ms), a['file']))
+        body = src.text[ms[0][0]:ms[0][1]]
+        body = re.sub(r'/\*.*?\*/', ' ', body, flags=re.S)
+        body = re.sub(r'//[^\n]*', ' ', body)
+        self.report.setdefault('typedefs', []).append(dict(name=a['name'], file=a['file'], line=line_of(src.text, ms[0][0])))
+        return re.sub(r'\n\s*\n+', '\n', body)
+
     # ------------------------------------------------------------------
     def function(self, blk, member_names_by_class):
         a = blk.attrs
@@ -1406,6 +1427,8 @@ class Extractor:
                 out.append(self.define(it))
             elif kind == 'enumval':
                 out.append(self.enumval(it))
+            elif kind == 'typedef':
+                out.append(self.typedef(it))
             elif kind == 'expect':
                 out.append(self.expect(it))
             elif kind == 'restartorder':
